@@ -71,5 +71,24 @@ func (s *Sniffer) SniffHttp() (d string, err error) {
 
 	// Now we assume it is an HTTP packet. We should not return NotApplicableError after here.
 
-	return sniffHTTPHostHeader(s.buf.Bytes())
+	data := s.buf.Bytes()
+	if !s.stream {
+		return sniffHTTPHostHeader(data)
+	}
+	// While the stream may still deliver the rest, only terminated lines are
+	// trustworthy: a Host line cut off by the end of a read carries a prefix
+	// of the name ("ex" for example.com).
+	end := bytes.LastIndex(data, httpLineSep)
+	if end < 0 {
+		end = 0
+	} else {
+		end += len(httpLineSep)
+	}
+	if d, err = sniffHTTPHostHeader(data[:end]); err == nil {
+		return d, nil
+	}
+	if _, tailErr := sniffHTTPHostHeader(data); tailErr == nil {
+		return "", ErrNeedMore
+	}
+	return "", err
 }
